@@ -291,6 +291,65 @@ def short_catalog():
     return items
 
 
+def short_random_item(rng: random.Random):
+    """A random stream of <= EXH_MAX bytes (request / response / push stream built from tiny frames, possibly
+    truncated, possibly referencing the dynamic table) in the same item format as the catalogue."""
+    rc = rng.random() < 0.5
+    c, al, mq, enc = _base_case(rc)
+    ph = c.phases[0]
+    use_dyn = rng.random() < 0.4
+    if use_dyn:
+        mq.insert(b"x-a", b"b")
+        if rng.random() < 0.5:
+            mq.insert(b"x-a", b"c", dyn_name=0)
+        ph.add_stream(enc, mq.take_enc())
+    first = RESP_LINES if rc else REQ_LINES
+    push = rc and rng.random() < 0.25
+    pre = b""
+    if push:
+        pre = enc_varint(1) + enc_varint(rng.randrange(0, 8), rng.choice([None, None, 2]))
+    budget = rng.randint(len(pre) + 5, EXH_MAX)
+
+    def hdr():
+        lines = list(first)
+        if use_dyn and rng.random() < 0.8:
+            lines.append(("d", rng.randrange(len(mq.entries))))
+        return h3frame(T_HEADERS, mq.block(lines))
+
+    def trl():
+        return h3frame(T_HEADERS, mq.block([("d", 0)] if use_dyn and rng.random() < 0.6 else [("s", 29)]))
+
+    body = bytearray(pre)
+    if rng.random() < 0.9:
+        body += hdr()
+    for _ in range(6):
+        r = rng.random()
+        if r < 0.45:
+            k = rng.choice([0, 0, 1, 1, 2, 3])
+            f = h3frame(T_DATA, bytes(rng.getrandbits(8) for _ in range(k)), tsize=rng.choice([None, None, None, 2]), lsize=rng.choice([None, None, 2]))
+        elif r < 0.65:
+            f = h3frame(rng.choice([0x21, 0x21, 0x40, 0x9]), bytes(rng.getrandbits(8) for _ in range(rng.choice([0, 0, 1, 2]))))
+        elif r < 0.8:
+            f = trl()
+        elif r < 0.88:
+            f = h3frame(T_DATA, b"ab", declared=rng.choice([3, 5]))  # payload cut short by the end of the stream
+        elif r < 0.93:
+            f = h3frame(rng.choice([0x2, 0x4, 0x7]), b"")
+        else:
+            f = hdr()
+        if len(body) + len(f) > budget:
+            break
+        body += f
+    body = bytes(body)
+    if rng.random() < 0.25 and len(body) > 2:
+        body = body[: rng.randrange(1, len(body))]
+    fin = rng.random() < 0.85
+    sid = al.uni() if push else al.req()
+    ph.add_stream(sid, body, fin)
+    c.label = "rand-short:%s%s%s/%d" % ("push" if push else "msg", ",dyn" if use_dyn else "", "" if fin else ",open", rc)
+    return {"case": c, "target": sid, "orders": ["ref", "ctx-last"] if use_dyn else ["ref"], "label": c.label}
+
+
 def item_cost(item):
     c = item["case"]
     d, f = c.full_streams()[item["target"]]
